@@ -2,8 +2,16 @@
 import Larking.Model.Basic
 import Larking.Model.Base64
 import Larking.Model.Status
+import Larking.Model.Timeout
+import Larking.Model.Metadata
+import Larking.Spec.Grpc
 import Larking.Lemmas.Base64
 import Larking.Lemmas.Status
+import Larking.Lemmas.Timeout
+import Larking.Lemmas.Metadata
 import Larking.Gen.Codes
+import Larking.Gen.Grpc
 import Larking.Gen.Missing
 import Larking.Props.C05
+import Larking.Props.C14
+import Larking.Props.C15
